@@ -30,7 +30,7 @@ CHECKS.update({
              "schedule. Tied to the code by (a) the translated _build_matrix proved equal to the model matrix on every run and "
              "(b) the float instance of the same Gallina model run by vm_compute against the implementation on generated cases; "
              "the proved conclusions are also evaluated on the implementation's own output to give concrete replays. "
-             "Time-monotonicity of the single-phase scheme is refuted on the real code (known finding K3).",
+             "Time-monotonicity of the single-phase scheme is refuted on the real code (known finding K3). Second half (C01_relaxation.v): the ideal reservoir never rises in time at any node (superharmonicity invariant), and both reservoirs relax to the frac-face value with an explicit contraction factor n(n+1)/(n(n+1)+2 dt/dx^2 alpha_min) in a barrier norm, for any step size; the loop bodies of simulate are regenerated from the source and proved equal to the model's step system (C04_step_system.v).",
         technique="Coq proof (min principle + induction over steps) over hand model + float-instance correspondence + translated matrix",
         design_ref="6/C01"),
     "C04": dict(
@@ -64,7 +64,7 @@ CHECKS.update({
              "is unique (rho*Z strictly increasing by MVT + interval positivity of the derivative), |Z-1| <= 6.48 p_r/T_r. The same "
              "file is checked for the published and for the coded first coefficient; only the coded one checks (known finding K1, "
              "exactly characterised in Findings/K1). Residuals of the implementation's densities are kernel-certified at sampled "
-             "points; Hall-Yarbrough termination/agreement is validated on a grid only.",
+             "points; Hall-Yarbrough termination/agreement is validated on a grid only. Z is Lipschitz in pressure with an explicit constant over the whole rectangle; the Hall-Yarbrough loop body is translated and the loop modelled with fuel (unit-interval invariant, exit theorem), its real iterates traced and certified.",
         technique="Coq proof (interval bisection over the validity box, IVT-contract oracle, MVT uniqueness) over py2coq-translated model + certified residuals",
         design_ref="6/C06"),
     "C07": dict(
@@ -72,7 +72,7 @@ CHECKS.update({
              "(interval), the coded dZ/drho is the derivative of the published EOS (auto_derive), a general implicit-differentiation "
              "theorem giving c = d ln(rho)/dp for any EOS that Z solves, viscosity positive and increasing in density on the Sutton "
              "range. The compressibility clause fails on the real code exactly as known finding K1 predicts (characterisation theorem + "
-             "numerical witness on every run). Translated functions are tied to the implementation by kernel-certified point evaluation.",
+             "numerical witness on every run). Translated functions are tied to the implementation by kernel-certified point evaluation. Density positive and strictly increasing in pressure, hence viscosity increasing in pressure, on the whole rectangle (C07_monotone.v).",
         technique="Coq proof (field/auto_derive/interval) over py2coq-translated model + certified point evaluation",
         design_ref="6/C07"),
 })
@@ -84,14 +84,14 @@ CHECKS.update({
              "pressures, additive over adjacent rows; the quadrature route is the quadrature oracle applied to 2p/(mu Z), and under "
              "the oracle's contract (Riemann integral) is zero at the reference, Chasles-additive and strictly increasing for a "
              "positive continuous integrand. Agreement of the adaptive-quadrature route with the table routes is validated "
-             "numerically (tolerance from the table's own h^2/12 f'' estimate).",
+             "numerically (tolerance from the table's own h^2/12 f'' estimate). Trapezoid error bound (C08_trapz_error.v): every table entry within the running sum of M h^3/12 of the exact integral.",
         technique="Coq proof (list induction on the trapezoid rule, Coquelicot RInt) over py2coq-translated model; numeric three-way comparison",
         design_ref="6/C08"),
     "C12": dict(
         text="Theorems for all inputs on the translated oil.py: GOR inverts the bubble-point correlation in both directions, is "
              "continuous at p_b, equals the initial GOR at and above it, is non-decreasing; Bo is continuous at p_b and increasing "
              "below it; viscosity is continuous at p_b. Remaining ordering/positivity clauses (Bo falling above p_b, c_o>0, mu>0, mu "
-             "falling below p_b) are checked on the sampled box only. Kernel-certified point evaluation ties the model to the code.",
+             "falling below p_b) are checked on the sampled box only. Kernel-certified point evaluation ties the model to the code. Literal continuity_pt theorems at the bubble point for GOR, Bo, density and viscosity over the box (C12_continuity.v) and every clause for array arguments of any dtype (C12_arrays.v).",
         technique="Coq proof (Rpower algebra, monotonicity) over py2coq-translated model + certified point evaluation",
         design_ref="6/C12"),
     "C19": dict(
@@ -154,14 +154,14 @@ CHECKS.update({
              "stability), hence the distance to ANY reference field grows by at most its truncation residual per step; flux stencil exact "
              "for quadratics; translated matrix and recovery scale factors equal the model's. The convergence claim itself (first-order "
              "small, shrinking under refinement) is validated numerically against the closed-form Fourier series and an independent BDF "
-             "method-of-lines reference along (nx, nt) ladders -- reported as validated_only.",
+             "method-of-lines reference along (nx, nt) ladders -- reported as validated_only. Consistency (C02_consistency.v): interior-row truncation defect M_tt dt^2/2 + a dt M_xxxx h^2/12 for smooth solutions and the accumulated-defect error bound.",
         technique="Coq proof (stability / error propagation via the discrete maximum principle) + numerical refinement ladders against independent references",
         design_ref="6/C02"),
     "C03": dict(
         text="Theorems: both recovery modes start at zero; exact discrete mass balance of a constant-coefficient step (telescoping), hence a "
              "non-increasing stored total; in-place recovery never exceeds 1 - rho(lowest value)/rho(m_i) for a non-decreasing density "
              "(combined with C01's bounds). Gap between the two modes (first-order, shrinking), monotone recovery and the ideal-gas plateau are "
-             "validated numerically on ladders for consistent synthetic tables exactly and shipped tables widened by their measured inconsistency.",
+             "validated numerically on ladders for consistent synthetic tables exactly and shipped tables widened by their measured inconsistency. C03_recovery_monotone.v: the ideal reservoir's recovery never decreases in time (theorem). Known finding K4: the single-phase in-place recovery dips below zero over the first step.",
         technique="Coq proof (telescoping sum, monotone bounds) + numerical refinement ladders",
         design_ref="6/C03"),
     "C05": dict(
